@@ -31,7 +31,7 @@ const SUITES: [Suite; 9] = [
 pub fn run(ctx: &Ctx, st: &mut Stats) -> Vec<Violation> {
     let mut out = Vec::new();
     // the sub-suites always run at their quick workloads; the thorough tier adds configurations
-    let sub = Ctx { id: ctx.id.clone(), tier: Tier::Quick, seed: ctx.seed, threads: ctx.threads, known_open: ctx.known_open.clone(), build: ctx.build.clone() };
+    let sub = Ctx { id: ctx.id.clone(), tier: Tier::Quick, seed: ctx.seed, threads: ctx.threads, known_open: ctx.known_open.clone(), build: ctx.build.clone(), light: true };
     for (name, f) in SUITES {
         let mut local = Stats::new();
         let sub = Ctx { id: name.to_string(), ..clone_ctx(&sub) };
@@ -70,7 +70,7 @@ pub fn run(ctx: &Ctx, st: &mut Stats) -> Vec<Violation> {
 }
 
 fn clone_ctx(c: &Ctx) -> Ctx {
-    Ctx { id: c.id.clone(), tier: c.tier, seed: c.seed, threads: c.threads, known_open: c.known_open.clone(), build: c.build.clone() }
+    Ctx { id: c.id.clone(), tier: c.tier, seed: c.seed, threads: c.threads, known_open: c.known_open.clone(), build: c.build.clone(), light: c.light }
 }
 
 pub fn replay(v: &Value) -> Result<(), String> {
